@@ -455,6 +455,9 @@ def rand_mnem(rng, n=4, used=None):
 def random_simple_table(rng, lr_type=34):
     """A small table for the surroundings of a log pass: returns (lr bytes, name)."""
     name = rng.choice([b'CONS', b'TOOL', b'PRES', b'FILM', b'AREA', rand_mnem(rng), rand_mnem(rng)])
+    if rng.random() < 0.15:
+        # the name is the value of a component block like any other: its size need not be four
+        name = rng.choice([b'CONSTANT', b'TOOLSTRG', b'PR', b'X', b'OUTPUTS ', b'CO', b'PARAMETERS'])
     ncol = rng.randrange(1, 4)
     used = set()
     mn = [b'MNEM'] + [rand_mnem(rng, used=used) for _ in range(ncol - 1)]
@@ -595,6 +598,13 @@ def random_logpass_spec(rng, max_channels=8, profile=None):
         x0 = Fraction(rng.randrange(-3000, 30000)) + rng.choice([0, 0, Fraction(1, 2), Fraction(3, 4)])
     sp = sign * d * factor
     span = lp.total + 40      # room for record gaps
+    if len(lp.frames_per_record) >= 2 and rng.random() < 0.12:
+        # a log that reaches X = 0 exactly at the head of a data record (an up log run to surface; a time log started before zero):
+        # mostly the last record
+        kz = len(lp.frames_per_record) - 1 if rng.random() < 0.7 else rng.randrange(1, len(lp.frames_per_record))
+        x0z = -sp * sum(lp.frames_per_record[:kz])
+        if _x_values_ok(xrc, x0z, sp, span) and _x_values_ok(xrc, x0z, -sp, 0):
+            x0 = x0z
     if not _x_values_ok(xrc, x0, sp, span) or not _x_values_ok(xrc, x0, -sp, 0):
         xrc = 68
         if not _x_values_ok(xrc, x0, sp, span):
